@@ -480,6 +480,13 @@ func cmdTreeCases(args []string) {
 		cfg.Optimizers = logicalplan.NoOptimizers
 		var impl Canon
 		var path string
+		if *dist && binopSignatureCollision(c) {
+			// Two series of a join's "one" side share a signature (recorded finding F20, outside the
+			// tree theorem's hypothesis): whether the engine fails depends on the series lists, and a
+			// remote result lists only the series that have points - the model's remote node lists all.
+			stats["one-side-collision-skipped"]++
+			continue
+		}
 		if *dist {
 			runtime.GOMAXPROCS(c.Procs)
 			impl, path = runQuery(distEng, NewStore(c.Data), cfg, c.Query, c.Window)
